@@ -427,17 +427,8 @@ Error RALocalAllocator::alloc_instruction(InstNode* node) noexcept {
     uint32_t dup_tied_count = 0;
     uint32_t consecutive_mask = 0;
 
-    // STEP 1
-    // ------
-    //
-    // Calculate `will_use` and `will_free` masks based on tied registers we have. In addition, aggregate information
-    // regarding consecutive registers used by this instruction. We need that to make USE/OUT assignments.
-    //
-    // We don't do any assignment decisions at this stage as we just need to collect some information first. Then,
-    // after we populate all masks needed we can finally make some decisions in the second loop. The main reason
-    // for this is that we really need `will_free` to make assignment decisions for `will_use`, because if we mark
-    // some registers that will be freed, we can consider them in decision making afterwards.
-
+    // Aggregate information regarding consecutive registers used by this instruction. We need that to make USE/OUT
+    // assignments, and we need it before anything else is decided (see STEP 2).
     for (i = 0; i < count; i++) {
       RATiedReg* tied_reg = &tied_regs[i];
 
@@ -451,78 +442,18 @@ Error RALocalAllocator::alloc_instruction(InstNode* node) noexcept {
         consecutive_mask |= Support::bit_mask<uint32_t>(consecutive_offset);
         consecutive_regs[consecutive_offset] = tied_reg;
       }
-
-      // Add OUT and KILL to `out_pending_count` for CLOBBERing and/or OUT assignment.
-      if (tied_reg->is_out_or_kill()) {
-        out_tied_regs[out_tied_count++] = tied_reg;
-      }
-
-      if (tied_reg->is_duplicate()) {
-        dup_tied_regs[dup_tied_count++] = tied_reg;
-      }
-
-      if (!tied_reg->is_use()) {
-        tied_reg->mark_use_done();
-        use_pending_count--;
-        continue;
-      }
-
-      // Don't assign anything here if this is a consecutive USE - we will handle this in STEP 2 instead.
-      if (tied_reg->is_use_consecutive()) {
-        continue;
-      }
-
-      RAWorkReg* work_reg = tied_reg->work_reg();
-      RAWorkId work_id = work_reg->work_id();
-      uint32_t assigned_id = _cur_assignment.work_to_phys_id(group, work_id);
-
-      if (tied_reg->has_use_id()) {
-        // If the register has `use_id` it means it can only be allocated in that register.
-        RegMask use_mask = Support::bit_mask<RegMask>(tied_reg->use_id());
-
-        // RAInstBuilder must have collected `used_regs` on-the-fly.
-        ASMJIT_ASSERT((will_use & use_mask) != 0);
-
-        if (assigned_id == tied_reg->use_id()) {
-          // If the register is already allocated in this one, mark it done and continue.
-          tied_reg->mark_use_done();
-          if (tied_reg->is_write()) {
-            _cur_assignment.make_dirty(group, work_id, assigned_id);
-          }
-          use_pending_count--;
-          will_use |= use_mask;
-        }
-        else {
-          will_free |= use_mask & _cur_assignment.assigned(group);
-        }
-      }
-      else {
-        // Check if the register must be moved to `allocable_regs`.
-        RegMask allocable_regs = tied_reg->use_reg_mask();
-        if (assigned_id != RAAssignment::kPhysNone) {
-          RegMask assigned_mask = Support::bit_mask<RegMask>(assigned_id);
-          if ((allocable_regs & ~will_use) & assigned_mask) {
-            tied_reg->set_use_id(assigned_id);
-            tied_reg->mark_use_done();
-            if (tied_reg->is_write()) {
-              _cur_assignment.make_dirty(group, work_id, assigned_id);
-            }
-            use_pending_count--;
-            will_use |= assigned_mask;
-          }
-          else {
-            will_free |= assigned_mask;
-          }
-        }
-      }
     }
 
-    // STEP 2
+    // STEP 2 (consecutive registers, done before STEP 1)
     // ------
     //
     // Verify that all the consecutive registers are really consecutive. Terminate if there is a gap. In addition,
     // decide which USE ids will be used in case that this consecutive sequence is USE (OUT registers are allocated
     // in a different step).
+    //
+    // This has to happen before STEP 1 looks at the other USE registers - a register that already sits in a suitable
+    // physical register would otherwise be kept there (`will_use`) and could block the only place where the whole
+    // sequence fits. Done first, such register is moved away like any other register that occupies a USE register.
     uint32_t consecutive_count = 0;
 
     if (consecutive_mask) {
@@ -601,6 +532,84 @@ Error RALocalAllocator::alloc_instruction(InstNode* node) noexcept {
           else {
             will_use |= use_mask;
             will_free |= use_mask & _cur_assignment.assigned(group);
+          }
+        }
+      }
+    }
+
+    // STEP 1
+    // ------
+    //
+    // Calculate `will_use` and `will_free` masks based on tied registers we have.
+    //
+    // We don't do any assignment decisions at this stage as we just need to collect some information first. Then,
+    // after we populate all masks needed we can finally make some decisions in the second loop. The main reason
+    // for this is that we really need `will_free` to make assignment decisions for `will_use`, because if we mark
+    // some registers that will be freed, we can consider them in decision making afterwards.
+
+    for (i = 0; i < count; i++) {
+      RATiedReg* tied_reg = &tied_regs[i];
+
+      // Add OUT and KILL to `out_pending_count` for CLOBBERing and/or OUT assignment.
+      if (tied_reg->is_out_or_kill()) {
+        out_tied_regs[out_tied_count++] = tied_reg;
+      }
+
+      if (tied_reg->is_duplicate()) {
+        dup_tied_regs[dup_tied_count++] = tied_reg;
+      }
+
+      if (!tied_reg->is_use()) {
+        tied_reg->mark_use_done();
+        use_pending_count--;
+        continue;
+      }
+
+      // Don't assign anything here if this is a consecutive USE - we will handle this in STEP 2 instead.
+      if (tied_reg->is_use_consecutive()) {
+        continue;
+      }
+
+      RAWorkReg* work_reg = tied_reg->work_reg();
+      RAWorkId work_id = work_reg->work_id();
+      uint32_t assigned_id = _cur_assignment.work_to_phys_id(group, work_id);
+
+      if (tied_reg->has_use_id()) {
+        // If the register has `use_id` it means it can only be allocated in that register.
+        RegMask use_mask = Support::bit_mask<RegMask>(tied_reg->use_id());
+
+        // RAInstBuilder must have collected `used_regs` on-the-fly.
+        ASMJIT_ASSERT((will_use & use_mask) != 0);
+
+        if (assigned_id == tied_reg->use_id()) {
+          // If the register is already allocated in this one, mark it done and continue.
+          tied_reg->mark_use_done();
+          if (tied_reg->is_write()) {
+            _cur_assignment.make_dirty(group, work_id, assigned_id);
+          }
+          use_pending_count--;
+          will_use |= use_mask;
+        }
+        else {
+          will_free |= use_mask & _cur_assignment.assigned(group);
+        }
+      }
+      else {
+        // Check if the register must be moved to `allocable_regs`.
+        RegMask allocable_regs = tied_reg->use_reg_mask();
+        if (assigned_id != RAAssignment::kPhysNone) {
+          RegMask assigned_mask = Support::bit_mask<RegMask>(assigned_id);
+          if ((allocable_regs & ~will_use) & assigned_mask) {
+            tied_reg->set_use_id(assigned_id);
+            tied_reg->mark_use_done();
+            if (tied_reg->is_write()) {
+              _cur_assignment.make_dirty(group, work_id, assigned_id);
+            }
+            use_pending_count--;
+            will_use |= assigned_mask;
+          }
+          else {
+            will_free |= assigned_mask;
           }
         }
       }
